@@ -78,7 +78,8 @@ def gen(rng, idx, tier, seed):
         return {'mode': mode, 'file': fs, 'dim': dim, 'lens': lens,
                 'seeds': seeds,
                 'via': ['method', 'stack_files', 'method', 'pncmfopen',
-                        'method', 'open_mfdataset'][(idx // 4) % 6],
+                        'method', 'open_mfdataset', 'stack_files_disk',
+                        'method_disk'][(idx // 4) % 8],
                 # file names whose sorted order differs from argument order
                 'labels': [int(x) for x in rng.permutation(12)[:k]],
                 # one path given twice (a, b, a): every mention is a piece
@@ -112,7 +113,8 @@ def run_concat(spec, res):
     files = [gen_core.build(piece_spec(spec['file'], dim, ln, sd))
              for ln, sd in zip(spec['lens'], spec['seeds'])]
     snaps = [snapshot.snap_file(f) for f in files]
-    if spec['via'] in ('pncmfopen', 'open_mfdataset'):
+    if spec['via'] in ('pncmfopen', 'open_mfdataset', 'stack_files_disk',
+                       'method_disk'):
         return run_concat_disk(spec, res, files, snaps)
     rest = files[1:]
     try:
@@ -185,7 +187,17 @@ def run_concat_disk(spec, res, files, snaps0):
             res.hook('stack.return', 0)
             return
         try:
-            if spec['via'] == 'pncmfopen':
+            if spec['via'] in ('stack_files_disk', 'method_disk'):
+                # the pieces are opened one by one and handed to the
+                # functional form / the method as open files
+                from PseudoNetCDF.core._functions import stack_files
+                opened = [h.keep(pnc.pncopen(p, format='netcdf'))
+                          for p in paths]
+                if spec['via'] == 'stack_files_disk':
+                    out = stack_files(opened, dim)
+                else:
+                    out = opened[0].stack(opened[1:], dim)
+            elif spec['via'] == 'pncmfopen':
                 out = h.keep(pnc.pncmfopen(paths, format='netcdf',
                                            stackdim=dim))
             else:
